@@ -102,8 +102,13 @@ class NetworksConfigConstructor:
         if network_name is None:
             network_name = "default"
         if network_name in self.networks:
-            nodes = self.networks[network_name].nodes
-            nodes.pop(node_name, None)
+            network = self.networks[network_name]
+            network.nodes.pop(node_name, None)
+            if network.topology is not None:
+                network.topology = {
+                    name: [neigh for neigh in neighbors if neigh != node_name]
+                    for name, neighbors in network.topology.items() if name != node_name
+                }
 
     def reset(self):
         """
